@@ -131,3 +131,60 @@ package key
 //@ func (*Group).Hash(g) (r)
 //@   props C17
 //@   call Slice#0: assert [C17:the-list-that-is-sorted-is-the-list-the-comparator-reads] asSlice(arg0, "[]*Node") == g.Nodes
+
+// ---- C20: encode side of the group wire form -------------------------------------------------------------------------------
+//@ func (*Group).ToProto(g, version) (out)
+//@   props C20
+//@   requires g.Scheme != nil
+//@   loop 0: invariant [C20:group-packet-node-scan] -1 <= rangeindex0 && rangeindex0 < len(g.Nodes) && len(ids) == len(g.Nodes) && isnew(ids) && isnew(out) && out != nil && (forall k int {ids[k]} :: 0 <= k && k <= rangeindex0 ==> ids[k] != nil && ids[k].Index == g.Nodes[k].Index && ids[k].Public != nil && ids[k].Public.Signature == g.Nodes[k].Signature)
+//@   ensures [C20:group-packet-carries-the-scalar-terms] out != nil && (0 <= g.Threshold && g.Threshold < 4294967296 ==> out.Threshold == g.Threshold) && (g.GenesisTime >= 0 ==> out.GenesisTime == g.GenesisTime) && (g.TransitionTime >= 0 ==> out.TransitionTime == g.TransitionTime) && out.SchemeID == g.Scheme.Name && out.Metadata != nil
+//@   ensures [C20:group-packet-carries-the-genesis-seed-of-the-group] out.GenesisSeed == g.GenesisSeed
+//@   ensures [C20:group-packet-lists-every-node-with-its-index-and-signature] len(out.Nodes) == len(g.Nodes) && (forall k int {out.Nodes[k]} :: 0 <= k && k < len(g.Nodes) ==> out.Nodes[k] != nil && out.Nodes[k].Index == g.Nodes[k].Index && out.Nodes[k].Public != nil && out.Nodes[k].Public.Signature == g.Nodes[k].Signature)
+
+// ---- C20: encode side of the TOML mirrors (what Save writes and the DKG database embeds) ---------------------------------
+//@ func PointToString(p) (s)
+//@   props C20
+//@   modifies nothing
+//@   ensures [C20:point-text-is-hex-of-its-binary-form] s == hexOf(marshalOf(p))
+//@ func ScalarToString(s) (r)
+//@   props C20
+//@   modifies nothing
+//@   ensures [C20:scalar-text-is-hex-of-its-binary-form] r == hexOf(marshalOf(s))
+
+//@ func (*Identity).TOML(i) (r)
+//@   props C20
+//@   modifies nothing
+//@   ensures [C20:identity-mirror-carries-address-key-signature-scheme] typeis(r, "*PublicTOML") && as(r, "*PublicTOML") != nil && as(r, "*PublicTOML").Address == i.Addr && as(r, "*PublicTOML").Key == hexOf(marshalOf(i.Key)) && as(r, "*PublicTOML").Signature == hexOf(i.Signature) && (i.Scheme != nil ==> as(r, "*PublicTOML").SchemeName == i.Scheme.Name)
+
+//@ func (*Node).TOML(n) (r)
+//@   props C20
+//@   requires n.Identity != nil
+//@   modifies nothing
+//@   ensures [C20:node-mirror-carries-index-and-identity] typeis(r, "*NodeTOML") && as(r, "*NodeTOML") != nil && as(r, "*NodeTOML").Index == n.Index && as(r, "*NodeTOML").PublicTOML != nil && as(r, "*NodeTOML").PublicTOML.Address == n.Identity.Addr && as(r, "*NodeTOML").PublicTOML.Key == hexOf(marshalOf(n.Identity.Key))
+
+//@ func (*DistPublic).TOML(d) (r)
+//@   props C20
+//@   modifies nothing
+//@   loop 0: invariant [C20:dist-public-mirror-scan] -1 <= rangeindex0 && rangeindex0 < len(d.Coefficients) && len(strings) == len(d.Coefficients) && isnew(strings) && (forall k int {strings[k]} :: 0 <= k && k <= rangeindex0 ==> strings[k] == hexOf(marshalOf(d.Coefficients[k])))
+//@   ensures [C20:dist-public-mirror-carries-every-coefficient] typeis(r, "*DistPublicTOML") && as(r, "*DistPublicTOML") != nil && len(as(r, "*DistPublicTOML").Coefficients) == len(d.Coefficients) && (forall k int {as(r, "*DistPublicTOML").Coefficients[k]} :: 0 <= k && k < len(d.Coefficients) ==> as(r, "*DistPublicTOML").Coefficients[k] == hexOf(marshalOf(d.Coefficients[k])))
+
+//@ func (*Group).TOML(g) (r)
+//@   props C20
+//@   requires g.Scheme != nil && (forall k int :: 0 <= k && k < len(g.Nodes) ==> g.Nodes[k] != nil && g.Nodes[k].Identity != nil)
+//@   modifies g.GenesisSeed
+//@   loop 0: invariant [C20:group-mirror-node-scan] -1 <= rangeindex0 && rangeindex0 < len(g.Nodes) && gtoml != nil && isnew(gtoml) && len(gtoml.Nodes) == len(g.Nodes) && isnew(gtoml.Nodes) && gtoml.Threshold == g.Threshold && (forall k int {gtoml.Nodes[k]} :: 0 <= k && k <= rangeindex0 ==> gtoml.Nodes[k] != nil && gtoml.Nodes[k].Index == g.Nodes[k].Index)
+//@   ensures [C20:group-mirror-carries-the-scalar-terms] typeis(r, "*GroupTOML") && as(r, "*GroupTOML") != nil && as(r, "*GroupTOML").Threshold == g.Threshold && as(r, "*GroupTOML").ID == g.ID && as(r, "*GroupTOML").SchemeID == g.Scheme.Name && as(r, "*GroupTOML").GenesisTime == g.GenesisTime && as(r, "*GroupTOML").TransitionTime == g.TransitionTime && as(r, "*GroupTOML").GenesisSeed == hexOf(g.GenesisSeed)
+//@   ensures [C20:group-mirror-lists-every-node-with-its-index] len(as(r, "*GroupTOML").Nodes) == len(g.Nodes) && (forall k int {as(r, "*GroupTOML").Nodes[k]} :: 0 <= k && k < len(g.Nodes) ==> as(r, "*GroupTOML").Nodes[k] != nil && as(r, "*GroupTOML").Nodes[k].Index == g.Nodes[k].Index)
+//@   ensures [C20:group-mirror-keeps-the-public-key-presence] (as(r, "*GroupTOML").PublicKey != nil) == (g.PublicKey != nil)
+
+//@ func (*Share).TOML(s) (r)
+//@   props C20
+//@   requires s.Share != nil && s.Scheme != nil
+//@   modifies nothing
+//@   ensures [C20:share-mirror-carries-index-scheme-and-secret] typeis(r, "*ShareTOML") && as(r, "*ShareTOML") != nil && as(r, "*ShareTOML").Index == s.Share.I && as(r, "*ShareTOML").SchemeName == s.Scheme.Name && as(r, "*ShareTOML").Share == hexOf(marshalOf(s.Share.V)) && len(as(r, "*ShareTOML").Commits) == len(s.Commits)
+
+//@ func (*Share).FromTOML(s, i) (err)
+//@   props C20
+//@   modifies s.Scheme, s.Commits, s.Share
+//@   ensures [C20:decoded-share-carries-index-and-commit-count] err == nil && typeis(i, "*ShareTOML") ==> s.Share != nil && s.Share.I == as(i, "*ShareTOML").Index && len(s.Commits) == len(as(i, "*ShareTOML").Commits) && s.Scheme != nil && (as(i, "*ShareTOML").SchemeName != "" ==> s.Scheme.Name == as(i, "*ShareTOML").SchemeName)
+//@   ensures [C20:a-share-of-another-type-is-rejected] !typeis(i, "*ShareTOML") ==> err != nil
